@@ -161,6 +161,14 @@ class CursorDiffs(object):
                         b = self.norm(r0['args'][0])
                         if b and b[1] != 'nonneg':
                             pn = (b[0], 'nonneg') if b[1] >= 0 else None
+                    rs = self.summaries.get(callee_name(r0), {}).get('ret') if (pn is None and r0.get('k') == 'call') else None
+                    if rs is not None and rs[0] < len(r0['args']):
+                        # a helper of this unit that returns a position at least rs[1] bytes after the cursor it is given
+                        b = self.norm(r0['args'][rs[0]])
+                        if b and b[1] != 'nonneg' and b[1] >= 0:
+                            D = self.copy(D, c, b[0], 'nonneg')
+                            D = {(x, y): (v + rs[1] + b[1] if x == c and y != c else v) for (x, y), v in D.items()}
+                            continue
                     D = self.copy(D, c, pn[0], pn[1]) if pn else self.forget(D, c)
                 elif op in ('+=', '-='):
                     k = const_val(rhs)
@@ -267,8 +275,44 @@ class CursorDiffs(object):
             return None
         ks = ['*' + p for p in self.pp]
         ks = ks + ['@' + k for k in ks]
-        return {'params': [p['n'] for p in self.fn.params], 'assume': dict(self.assume),
-                'D': {(a, b): v for (a, b), v in D.items() if a in ks and b in ks}}
+        out = {'params': [p['n'] for p in self.fn.params], 'assume': dict(self.assume),
+               'D': {(a, b): v for (a, b), v in D.items() if a in ks and b in ks}}
+        rs = self.return_summary()
+        if rs is not None:
+            out['ret'] = rs
+        return out
+
+    def return_summary(self):
+        """(index of the char* parameter, k): every return hands back a position at least k bytes after that parameter's value on
+        entry; None when the function does not return a char* derived from its single char* parameter on every path"""
+        if not _is_charp(self.u, self.fn.ret, 1):
+            return None
+        cps = [(i, p['n']) for i, p in enumerate(self.fn.params) if _is_charp(self.u, p['ty'], 1)]
+        if len(cps) != 1:
+            return None
+        pi, pname = cps[0]
+        lbs = []
+        for n in self.cfg.nodes:
+            if n.kind != 'return' or n.expr is None:
+                continue
+            D = self.states.get(n.id)
+            if D is None:
+                continue
+            pn = self.norm(n.expr)
+            if pn is None or pn[1] == 'nonneg':
+                if pn is not None:
+                    v = self.get(D, pn[0], '@' + pname)
+                    if v > NEG:
+                        lbs.append(v)
+                        continue
+                return None
+            v = self.get(D, pn[0], '@' + pname)
+            if v <= NEG:
+                return None
+            lbs.append(v + pn[1])
+        if not lbs:
+            return None
+        return (pi, min(lbs))
 
     # ---- roles and liveness -----------------------------------------------------------------------
     def roles(self):
@@ -404,7 +448,8 @@ class CursorDiffs(object):
 def unit_summaries(u):
     """Bottom-up summaries of the functions of u that take a char** cursor."""
     summaries = {}
-    todo = [fn for fn in u.function_list if any(_is_charp(u, p['ty'], 2) for p in fn.params)]
+    todo = [fn for fn in u.function_list if any(_is_charp(u, p['ty'], 2) for p in fn.params) or
+            (_is_charp(u, fn.ret, 1) and sum(1 for p in fn.params if _is_charp(u, p['ty'], 1)) == 1 and fn.body is not None)]
     # callees first: a function that calls another listed one goes after it
     names = {fn.name for fn in todo}
     order = []
